@@ -58,6 +58,9 @@ type item struct {
 	K1 int    `json:"k1"`
 	K2 string `json:"k2"`
 	K3 string `json:"k3"`
+	// CopyOf > 0: this element is the very same record value (same id) as element CopyOf-1: lists may hold
+	// one value several times, with other elements that tie with it in between
+	CopyOf int `json:"copyOf,omitempty"`
 }
 
 // keySpec is one sort key: which key, direction and (descriptor sorts only)
@@ -95,6 +98,10 @@ func (c sortCase) specString(withMode bool) string {
 func (c sortCase) recs() []rec {
 	out := make([]rec, len(c.Items))
 	for i, it := range c.Items {
+		if it.CopyOf > 0 && it.CopyOf-1 < i {
+			out[i] = out[it.CopyOf-1]
+			continue
+		}
 		out[i] = rec{K1: fpgo.NewComparableOrdered(it.K1), K2: fpgo.NewComparableString(it.K2), K3: fpgo.NewComparableOrdered(it.K3), ID: i}
 	}
 	return out
@@ -536,6 +543,17 @@ func genItems(t *rapid.T, maxLen int) []item {
 		// K1 in {-2,-1,0,1}: negative keys, zero and positive keys (zero is an ordinary key value)
 		out[i] = item{K1: code%4 - 2, K2: k2Values[(code/4)%4], K3: k3Values[code/16]}
 	}
+	// now and then the list holds some record values more than once
+	if n >= 3 && rapid.IntRange(0, 3).Draw(t, "copies") == 0 {
+		for k := rapid.IntRange(1, 4).Draw(t, "ncopies"); k > 0; k-- {
+			i := rapid.IntRange(1, n-1).Draw(t, "copyAt")
+			j := rapid.IntRange(0, i-1).Draw(t, "copyOf")
+			if out[j].CopyOf == 0 {
+				out[i] = out[j]
+				out[i].CopyOf = j + 1
+			}
+		}
+	}
 	return out
 }
 
@@ -610,6 +628,9 @@ type rec2 struct {
 
 func propSecondType(t *rapid.T) {
 	c := sortCase{Entry: "ToSortedList", Items: genItems(t, 20), Spec: genSpec(t, 3, true)}
+	for i := range c.Items {
+		c.Items[i].CopyOf = 0 // this part identifies elements by their unique id
+	}
 	for i := range c.Spec {
 		c.Spec[i].Mode = 1 + 2*(c.Spec[i].Mode%2) // field-name based modes only (1 or 3)
 	}
